@@ -314,47 +314,136 @@ func runC14(p *core.Program, r *core.Report) {
 	cinfo := p.Pkg("checker").TypesInfo
 	okComb, combWhy := false, "no function comparing two weights found"
 	for _, fd := range p.FuncDecls("checker") {
-		if fd.Body == nil || len(fd.Body.List) == 0 {
+		if fd.Body == nil || fd.Type.Params == nil || fd.Type.Results == nil || fd.Type.Results.NumFields() != 1 {
 			continue
 		}
-		is, ok := fd.Body.List[0].(*ast.IfStmt)
-		if !ok {
+		var params []types.Object
+		for _, f := range fd.Type.Params.List {
+			for _, nm := range f.Names {
+				params = append(params, cinfo.Defs[nm])
+			}
+		}
+		if len(params) != 2 {
 			continue
 		}
-		b, ok := eng.Unparen(is.Cond).(*ast.BinaryExpr)
-		if !ok {
-			continue
-		}
-		lc, ok1 := eng.Unparen(b.X).(*ast.CallExpr)
-		rc, ok2 := eng.Unparen(b.Y).(*ast.CallExpr)
-		if !ok1 || !ok2 || eng.CalleeOf(cinfo, lc) == nil || eng.CalleeOf(cinfo, lc) != cinfo.Defs[wfd.Name] || eng.CalleeOf(cinfo, rc) != cinfo.Defs[wfd.Name] {
-			continue
-		}
-		// if w(a) > w(b) { return a } else { return b }
-		retOf := func(bl *ast.BlockStmt) string {
-			if bl != nil && len(bl.List) == 1 {
-				if rs, ok := bl.List[0].(*ast.ReturnStmt); ok && len(rs.Results) == 1 {
-					return eng.ExprStr(rs.Results[0])
+		// the function compares the weights of its two parameters: every path is read as
+		// (relation between w(p0) and w(p1) that holds on it, parameter returned); names given
+		// to the two weights are looked through
+		ld := eng.SingleDefs(cinfo, fd.Body)
+		weightOf := func(e ast.Expr) int { // 0 / 1: which parameter's weight, -1: neither
+			c, ok := ld.Resolve(e).(*ast.CallExpr)
+			if !ok || len(c.Args) != 1 || eng.CalleeOf(cinfo, c) == nil || eng.CalleeOf(cinfo, c) != cinfo.Defs[wfd.Name] {
+				return -1
+			}
+			id, ok := ld.Resolve(c.Args[0]).(*ast.Ident)
+			if !ok {
+				return -1
+			}
+			for i, pobj := range params {
+				if cinfo.Uses[id] == pobj {
+					return i
 				}
 			}
-			return "?"
+			return -1
 		}
-		thenR := retOf(is.Body)
-		elseB, _ := is.Else.(*ast.BlockStmt)
-		elseR := retOf(elseB)
-		if elseB == nil && len(fd.Body.List) == 2 {
-			if rs, ok := fd.Body.List[1].(*ast.ReturnStmt); ok && len(rs.Results) == 1 {
-				elseR = eng.ExprStr(rs.Results[0])
+		compares := false
+		ast.Inspect(fd.Body, func(n ast.Node) bool {
+			if b, ok := n.(*ast.BinaryExpr); ok && weightOf(b.X) >= 0 && weightOf(b.Y) >= 0 && weightOf(b.X) != weightOf(b.Y) {
+				compares = true
+			}
+			return true
+		})
+		if !compares {
+			continue
+		}
+		w := &eng.Walker{Info: cinfo}
+		okAll, nRet := true, 0
+		var desc []string
+		for _, path := range w.Func(fd.Body) {
+			// relation between w(p0) and w(p1) on this path: a subset of {<,=,>}
+			lt, eq, gt := true, true, true
+			var ret ast.Expr
+			for _, at := range path.Atoms {
+				switch at.Kind {
+				case "cond":
+					b, ok := eng.Unparen(at.Node.(ast.Expr)).(*ast.BinaryExpr)
+					if !ok {
+						continue
+					}
+					x, y := weightOf(b.X), weightOf(b.Y)
+					if x < 0 || y < 0 || x == y {
+						continue
+					}
+					op := b.Op
+					if x == 1 { // w(p1) OP w(p0)  ≡  w(p0) OP' w(p1)
+						op = map[token.Token]token.Token{token.LSS: token.GTR, token.GTR: token.LSS, token.LEQ: token.GEQ, token.GEQ: token.LEQ, token.EQL: token.EQL, token.NEQ: token.NEQ}[op]
+					}
+					var l, e, g bool
+					switch op {
+					case token.LSS:
+						l = true
+					case token.LEQ:
+						l, e = true, true
+					case token.GTR:
+						g = true
+					case token.GEQ:
+						g, e = true, true
+					case token.EQL:
+						e = true
+					case token.NEQ:
+						l, g = true, true
+					default:
+						continue
+					}
+					if !at.Taken {
+						l, e, g = !l, !e, !g
+					}
+					lt, eq, gt = lt && l, eq && e, gt && g
+				case "return":
+					if rs := at.Node.(*ast.ReturnStmt); len(rs.Results) == 1 {
+						ret = rs.Results[0]
+					}
+				}
+			}
+			if path.Term != "return" || ret == nil || (!lt && !eq && !gt) {
+				continue // not a completing path, or an infeasible one
+			}
+			nRet++
+			which := -1
+			if id, ok := ld.Resolve(ret).(*ast.Ident); ok {
+				for i, pobj := range params {
+					if cinfo.Uses[id] == pobj {
+						which = i
+					}
+				}
+			}
+			rel := ""
+			for _, t := range []struct {
+				on bool
+				s  string
+			}{{lt, "<"}, {eq, "="}, {gt, ">"}} {
+				if t.on {
+					rel += t.s
+				}
+			}
+			desc = append(desc, fmt.Sprintf("w(%s) {%s} w(%s) → %s", params[0].Name(), rel, params[1].Name(), eng.ExprStr(ret)))
+			// returning p0 needs w(p0) >= w(p1) on the whole path; p1 the converse
+			switch which {
+			case 0:
+				if lt {
+					okAll = false
+				}
+			case 1:
+				if gt {
+					okAll = false
+				}
+			default:
+				okAll = false
 			}
 		}
-		la, ra := eng.ExprStr(lc.Args[0]), eng.ExprStr(rc.Args[0])
-		switch b.Op {
-		case token.GTR, token.GEQ:
-			okComb = thenR == la && elseR == ra
-		case token.LSS, token.LEQ:
-			okComb = thenR == ra && elseR == la
-		}
-		combWhy = fmt.Sprintf("%s: if w(%s) %s w(%s) return %s else %s", fd.Name.Name, la, b.Op, ra, thenR, elseR)
+		sort.Strings(desc)
+		okComb = okAll && nRet >= 2
+		combWhy = fd.Name.Name + ": " + strings.Join(desc, "; ")
 		r.Check(okComb, "R14.4", "checker."+fd.Name.Name+" returns the higher-weighted type", p.Pos(fd.Pos()), combWhy, combWhy+": the checker predicts the LOWER-ranked kind")
 	}
 	// the checker's typing rule of every arithmetic operator returns the combining function's result
@@ -703,21 +792,38 @@ func runC14(p *core.Program, r *core.Report) {
 				params = append(params, vinfo.Defs[nm])
 			}
 		}
-		ok := len(fd.Body.List) == 1 && len(params) == 2 && len(pow.Args) == 2
-		why := "the body is not the single statement `return math.Pow(toFloat64(a), toFloat64(b))`"
-		if ok {
-			rs, isRet := fd.Body.List[0].(*ast.ReturnStmt)
-			ok = isRet && len(rs.Results) == 1 && eng.Unparen(rs.Results[0]) == ast.Expr(pow)
+		// straight-line body: definitions of names (looked through) and one return of the power
+		ld := eng.SingleDefs(vinfo, fd.Body)
+		ok := len(fd.Body.List) >= 1 && len(params) == 2 && len(pow.Args) == 2
+		why := "the body is not the straight-line `return math.Pow(toFloat64(a), toFloat64(b))`"
+		for i, st := range fd.Body.List {
+			if !ok {
+				break
+			}
+			if i == len(fd.Body.List)-1 {
+				rs, isRet := st.(*ast.ReturnStmt)
+				ok = isRet && len(rs.Results) == 1 && ld.Resolve(rs.Results[0]) == ast.Expr(pow)
+				continue
+			}
+			as, isDef := st.(*ast.AssignStmt)
+			ok = isDef && as.Tok == token.DEFINE
+			if ok {
+				for _, l := range as.Lhs {
+					if id, isID := l.(*ast.Ident); !isID || (id.Name != "_" && ld.Def(vinfo.Defs[id]) == nil) {
+						ok = false
+					}
+				}
+			}
 		}
 		if ok {
 			for i, a := range pow.Args {
-				c, isCall := eng.Unparen(a).(*ast.CallExpr)
+				c, isCall := ld.Resolve(a).(*ast.CallExpr)
 				if !isCall || len(c.Args) != 1 {
 					ok, why = false, "argument "+fmt.Sprint(i+1)+" of math.Pow is not a conversion-helper call"
 					break
 				}
 				fn := eng.CalleeOf(vinfo, c)
-				id, isID := eng.Unparen(c.Args[0]).(*ast.Ident)
+				id, isID := ld.Resolve(c.Args[0]).(*ast.Ident)
 				conv := fn != nil && fn.Pkg() == p.Pkg("vm").Types
 				if conv {
 					sig := fn.Type().(*types.Signature)
